@@ -90,6 +90,9 @@ func EvalFlow(prog int, f *FlowP, pl *FlowPlan) *FlowModel {
 		fallback := func() {
 			for k := range outs {
 				outs[k] = FBVal(prog, t.ID, k)
+				if t.FBNil {
+					outs[k] = 0 // the literal nil
+				}
 			}
 			m.UsedFB[t.ID] = true
 		}
